@@ -105,18 +105,34 @@ func genC03Op(t *rapid.T, a *ref.AF) OpC03 {
 			o.B = rapid.Bool().Draw(t, "as-nil")
 		}
 		if o.Kind == "tpd" && n >= 10 && rapid.IntRange(0, 3).Draw(t, "tpd-structured") == 0 {
-			// private data that looks like a descriptor chain ending in an EBP descriptor
+			// private data that looks like a descriptor chain with an EBP descriptor in it: at the end (filling the rest), or
+			// anywhere with further units behind it
+			unit := func(d []byte) []byte {
+				l := rapid.IntRange(0, 3).Draw(t, "chain-len")
+				d = append(d, rapid.SampledFrom([]byte{0xA0, 0xA9, 0x05, 0xE9, 0xDF}).Draw(t, "chain-tag"), byte(l))
+				return append(d, genBytes(t, l, l, "chain-body")...)
+			}
 			d := []byte{}
 			for len(d)+4 < n-8 && rapid.Bool().Draw(t, "chain-more") {
-				l := rapid.IntRange(0, 3).Draw(t, "chain-len")
-				d = append(d, rapid.SampledFrom([]byte{0xA0, 0xA9, 0x05, 0xE9}).Draw(t, "chain-tag"), byte(l))
-				d = append(d, genBytes(t, l, l, "chain-body")...)
+				d = unit(d)
 			}
-			d = append(d, rapid.SampledFrom([]byte{0xDF, 0xA9}).Draw(t, "ebp-tag"), byte(n-len(d)-2), 'E', 'B', 'P', '0')
-			for len(d) < n {
-				d = append(d, byte(len(d)))
+			if rapid.Bool().Draw(t, "ebp-last") {
+				d = append(d, rapid.SampledFrom([]byte{0xDF, 0xA9}).Draw(t, "ebp-tag"), byte(n-len(d)-2), 'E', 'B', 'P', '0')
+				for len(d) < n {
+					d = append(d, byte(len(d)))
+				}
+			} else {
+				el := rapid.IntRange(4, 6).Draw(t, "ebp-len")
+				d = append(d, rapid.SampledFrom([]byte{0xDF, 0xA9}).Draw(t, "ebp-tag"), byte(el), 'E', 'B', 'P', '0')
+				for i := 4; i < el; i++ {
+					d = append(d, byte(0x80+i))
+				}
+				d = unit(d)
+				for len(d)+5 <= n && rapid.Bool().Draw(t, "chain-more-after") {
+					d = unit(d)
+				}
 			}
-			if len(d) == n {
+			if len(d) <= n {
 				o.Data = d
 			}
 		}
